@@ -20,6 +20,8 @@ def run(ctx, model_ok, deep=False):
          "all sequences of length 1-2 and 500 of length 3 (quick) / all to length 4 (thorough) over {valid, badsig, expired, nodot, onedot, badhdr, noalg, badpay, unsigned, NULL, empty, error_clear}, plus random sequences of length 5-60; reference = same token on a fresh checker", False),
         ("key-lifecycle", S.key_lifecycle_suite, S.falsify_accept,
          "per key type and provider: one keyring slot loaded, used, freed and re-loaded 6 (quick) / 12 (thorough) times with two keys of the same type and size in turn; after every re-load the retired key's token must fail and the current key's must verify", False),
+        ("programs", S.programs_suite, S.falsify_programs,
+         "110 (quick) / 1500 (thorough) random programs of 55-70 API calls over 3 checkers, 3 builders, every pool key (with/without alg attribute, private/public), callbacks, clocks and both providers; every answer compared with the model; 60% of the verifies and generates are asked of a fresh twin configured by the same calls first", False),
         ("builder-reuse", S.builder_reuse_suite, S.falsify_builder_reuse,
          "all sequences to length 3 (quick) / 4 (thorough) over {ok, callback fails, weak key, callback selects inadmissible key/alg, unsigned, error_clear} + random longer ones; each generate compared with a fresh identically configured builder", False),
     ])
